@@ -768,8 +768,11 @@ class PayloadSK(Payload):
     def decrypt(self, crypto):
         iv = self.ciphertext[:crypto.cipher.block_size]
         ciphertext = self.ciphertext[crypto.cipher.block_size:-crypto.integrity.hash_size]
-        decrypted = crypto.cipher.decrypt(crypto.sk_e, bytes(iv), bytes(ciphertext))
-        padlen = decrypted[-1]
+        try:
+            decrypted = crypto.cipher.decrypt(crypto.sk_e, bytes(iv), bytes(ciphertext))
+            padlen = decrypted[-1]
+        except (ValueError, IndexError):
+            raise InvalidSyntax('Error decrypting Payload SK: invalid IV or ciphertext length')
         return iv, decrypted[:-1 - padlen]
 
     @classmethod
